@@ -52,6 +52,12 @@ type C08Scenario struct {
 	// first goes through Pubs; every per-publish rule - each hook exactly once, before any handler / after
 	// all synchronous handlers of THAT publish - holds for both publishers' events.
 	Pubs2 []C08Pub `json:"pubs2,omitempty"`
+	// OnceClear (1 Clear, 2 ClearAll; only without Pubs2): just before the last publish two more handlers are
+	// subscribed, after all others: a Once handler, and a handler that clears the event type (or the whole
+	// bus) from inside that publish. The publish already holds its handlers, so every rule is unchanged:
+	// all handlers run, the fired Once handler has nothing left to be removed from, and the after-publish
+	// hooks still run exactly once.
+	OnceClear int `json:"once_clear,omitempty"`
 }
 
 type c08Key struct{}
@@ -90,6 +96,9 @@ func genC08(rt *rapid.T) core.Scenario {
 		for i := 0; i < n2; i++ {
 			sc.Pubs2 = append(sc.Pubs2, C08Pub{ID: 1000 + (i+1)*2 + rapid.IntRange(0, 1).Draw(rt, "parity2"), CtxKind: rapid.IntRange(0, 1).Draw(rt, "ctx2")})
 		}
+	}
+	if len(sc.Pubs2) == 0 && rapid.IntRange(0, 3).Draw(rt, "onceClear") == 3 {
+		sc.OnceClear = rapid.IntRange(1, 2).Draw(rt, "clearKind")
 	}
 	sc.Tape = core.DrawTape(rt, 300)
 	return sc
@@ -130,6 +139,7 @@ func (sc *C08Scenario) Execute(t *testing.T) *core.Outcome {
 	for i, r := range sc.Regs {
 		regOfFn[r.Fn] = i
 	}
+	onceRuns, cleared, finalCount := 0, 0, -1
 	hook := func(kind int, ctx context.Context, et reflect.Type, ev any) {
 		if simrt.Dying() {
 			return
@@ -198,6 +208,21 @@ func (sc *C08Scenario) Execute(t *testing.T) *core.Outcome {
 			filterAt[[2]int{regOfFn[fn], id}] = w.Rec.Add("filter", regOfFn[fn], id, "")
 		}
 		w.OnInvoke = func(ti, fn, uid int, ctx context.Context, id int) {
+			if uid == 7000 { // the late Once handler
+				onceRuns++
+				w.Rec.Add("once", id, 0, "")
+				return
+			}
+			if uid == 7001 { // the clearing handler
+				w.Rec.Add("clear", id, sc.OnceClear, "")
+				cleared++
+				if sc.OnceClear == 2 {
+					clearAll(w)
+				} else {
+					ops.Clear(w)
+				}
+				return
+			}
 			ri := regOfFn[fn]
 			r := sc.Regs[ri]
 			iv := &c08Inv{Reg: ri, Ev: id, ValueOK: true, ErrAgree: true, CtxAware: ctx != nil}
@@ -294,11 +319,22 @@ func (sc *C08Scenario) Execute(t *testing.T) *core.Outcome {
 				}
 			})
 		}
-		for _, p := range sc.Pubs {
+		for i, p := range sc.Pubs {
+			if sc.OnceClear != 0 && len(sc.Pubs2) == 0 && i == len(sc.Pubs)-1 {
+				if err := w.SubscribeUID(sc.Type, numSites-2, 7000, SubOpts{Once: true}); err != nil {
+					out.HarnessErr = err.Error()
+					return
+				}
+				if err := w.SubscribeUID(sc.Type, numSites-3, 7001, SubOpts{}); err != nil {
+					out.HarnessErr = err.Error()
+					return
+				}
+			}
 			doPub(p)
 		}
 		simrt.Join(second)
 		w.Bus.Wait()
+		finalCount = ops.Count(w)
 	}
 	rep, herr := core.Sim(t, &sc.Base, nil, body)
 	out.Rep = rep
@@ -422,6 +458,15 @@ func (sc *C08Scenario) Execute(t *testing.T) *core.Outcome {
 			if h.Stamp < pubCall[p.ID] || h.Stamp > pubRet[p.ID] {
 				out.V("hook-order", "%s ran outside the publish call of event %d", name, p.ID)
 			}
+		}
+	}
+	if onceRuns > 1 {
+		out.V("once-fired-twice", "the late Once handler ran %d times in one publish", onceRuns)
+	}
+	if cleared > 0 {
+		out.Fault("clear-during-publish")
+		if finalCount != 0 {
+			out.V("count-after-clear", "HandlerCount=%d after a handler cleared the event type during the last publish", finalCount)
 		}
 	}
 	for _, h := range hooks {
